@@ -121,7 +121,8 @@ impl<T> Handle<G<T>, Message<Never, Never>> for OuterTb {
     open spec fn gate(&self, k: int, h: Heap, g: G<T>, c: Cap, m: Message<Never, Never>) -> bool {
         if k == $GATE_UP_KIND { m is Pull || m is Terminate || m is Error }
         else if k == $GATE_UP_GREETED { up_greeted(g.outer.phase) }
-        else if k == $GATE_UP_PULL_LIVE { m is Pull ==> !up_over(g.outer.phase) }
+        else if k == $GATE_UP_PULL_LIVE { m is Pull ==> g.outer.phase != Up::EndedByUs }
+        else if k == $GATE_UP_PULL_SELF { m is Pull ==> g.outer.phase != Up::EndedBySelf && g.outer.phase != Up::ErroredBySelf }
         else if k == $GATE_UP_TERM_ONCE { !(m is Pull) ==> g.outer.phase != Up::EndedByUs }
         else if k == $GATE_UP_TERM_SELF { !(m is Pull) ==> g.outer.phase != Up::EndedBySelf && g.outer.phase != Up::ErroredBySelf }
         else if k == $GATE_FLAT_ROUTE { m is Pull ==> forall|j: int| 0 <= j < g.inners.len() ==> (#[trigger] g.inners[j]).phase != Up::Live }
@@ -209,7 +210,8 @@ impl<T> Handle<G<T>, Message<Never, Never>> for InnerTb {
     open spec fn gate(&self, k: int, h: Heap, g: G<T>, c: Cap, m: Message<Never, Never>) -> bool {
         if k == $GATE_UP_KIND { m is Pull || m is Terminate || m is Error }
         else if k == $GATE_UP_GREETED { 0 <= self.gen@ < g.inners.len() && up_greeted(g.inners[self.gen@].phase) }
-        else if k == $GATE_UP_PULL_LIVE { 0 <= self.gen@ < g.inners.len() && (m is Pull ==> !up_over(g.inners[self.gen@].phase)) }
+        else if k == $GATE_UP_PULL_LIVE { 0 <= self.gen@ < g.inners.len() && (m is Pull ==> g.inners[self.gen@].phase != Up::EndedByUs) }
+        else if k == $GATE_UP_PULL_SELF { 0 <= self.gen@ < g.inners.len() && (m is Pull ==> g.inners[self.gen@].phase != Up::EndedBySelf && g.inners[self.gen@].phase != Up::ErroredBySelf) }
         else if k == $GATE_UP_TERM_ONCE { 0 <= self.gen@ < g.inners.len() && (!(m is Pull) ==> g.inners[self.gen@].phase != Up::EndedByUs) }
         else if k == $GATE_UP_TERM_SELF { 0 <= self.gen@ < g.inners.len() && (!(m is Pull) ==> g.inners[self.gen@].phase != Up::EndedBySelf && g.inners[self.gen@].phase != Up::ErroredBySelf) }
         else { true }
